@@ -12,6 +12,7 @@ package main
 
 import (
 	"fmt"
+	"github.com/jotaen/klog/klog/parser"
 	"os"
 	"path/filepath"
 	"regexp"
@@ -36,12 +37,15 @@ func viewFail(tag string, what string, detail string) viewResult {
 }
 
 // classify maps the exit of a klog command to a section status; ok = proceed with parsing stdout
-func classify(tag string, code int, errText string) (viewResult, bool) {
+// refusedNow is set by views() for the request at hand (the harness handles one request at a time).
+var refusedNow func(args ...string) bool
+
+func classify(tag string, code int, errText string, args ...string) (viewResult, bool) {
 	if code == -1 {
 		return viewResult{"crash", []string{tag, "crash"}}, false
 	}
 	if code != 0 {
-		if strings.Contains(errText, "Cannot apply --now flag") {
+		if refusedNow != nil && refusedNow(args...) {
 			return viewResult{"err", []string{tag, "err"}}, false
 		}
 		return viewFail(tag, "exit"+strconv.Itoa(code), errText), false
@@ -359,15 +363,36 @@ func views(now gotime.Time, aggArg string, fill, withDiff, withNow bool, filter 
 	defer os.RemoveAll(dir)
 	f := filepath.Join(dir, "in.klg")
 	writeFile(f, text)
+	useNow := withNow
 	run := func(args ...string) (int, string, string) {
 		e := &cliEnv{Home: dir, Sticky: true, Clock: []gotime.Time{now}}
-		if withNow && args[0] != "print" {
+		if useNow && args[0] != "print" {
 			args = append(args, "--now")
 		}
 		if args[0] != "today" {
 			args = append(args, filter...)
 		}
 		return runSafely(e, append(args, f)...)
+	}
+	// The failures are told apart by what makes them go away, not by the wording of klog's messages:
+	//  - refusedNow: the command fails with --now and ends differently (succeeds, or fails in another way) without it;
+	//  - argument error: the command line fails on an empty file as well;
+	//  - invalid file: the parser reports errors for the text.
+	refusedNow = func(args ...string) bool {
+		if !withNow || args[0] == "print" {
+			return false
+		}
+		code1, _, err1 := run(args...)
+		useNow = false
+		code2, _, err2 := run(args...)
+		useNow = withNow
+		return code1 > 0 && (code2 != code1 || err2 != err1)
+	}
+	failsOnEmptyFile := func(args ...string) bool {
+		writeFile(f, "")
+		code, _, _ := run(args...)
+		writeFile(f, text)
+		return code > 0
 	}
 	agg := byte('d')
 	if aggArg != "" {
@@ -384,13 +409,15 @@ func views(now gotime.Time, aggArg string, fill, withDiff, withNow bool, filter 
 		rargs = append(rargs, "--diff")
 	}
 	code, out, errText := run(rargs...)
-	if code > 0 && strings.HasPrefix(errText, "Invocation error") {
+	if code > 0 && failsOnEmptyFile(rargs...) {
 		return "argerr"
 	}
-	if code > 0 && strings.Contains(errText, "SYNTAX ERROR") {
-		return "invalid"
+	if code > 0 {
+		if _, _, errs := parser.NewSerialParser().Parse(text); errs != nil {
+			return "invalid"
+		}
 	}
-	if v, ok := classify("R", code, errText); !ok {
+	if v, ok := classify("R", code, errText, rargs...); !ok {
 		secs = append(secs, v)
 	} else if toks, why := parseReport(out, agg, withDiff); why != "" {
 		secs = append(secs, viewFail("R", why, out))
@@ -400,7 +427,7 @@ func views(now gotime.Time, aggArg string, fill, withDiff, withNow bool, filter 
 
 	// klog total
 	code, out, errText = run("total", "--decimal", "--no-style", "--no-warn", "--diff")
-	if v, ok := classify("T", code, errText); !ok {
+	if v, ok := classify("T", code, errText, "total", "--decimal", "--no-style", "--no-warn", "--diff"); !ok {
 		secs = append(secs, v)
 	} else if m := totalDiffRe.FindStringSubmatch(out); m == nil {
 		secs = append(secs, viewFail("T", "unparsed", out))
@@ -411,7 +438,7 @@ func views(now gotime.Time, aggArg string, fill, withDiff, withNow bool, filter 
 	// klog today
 	if filter == nil {
 		code, out, errText = run("today", "--decimal", "--no-style", "--no-warn", "--diff")
-		if v, ok := classify("D", code, errText); !ok {
+		if v, ok := classify("D", code, errText, "today", "--decimal", "--no-style", "--no-warn", "--diff"); !ok {
 			secs = append(secs, v)
 		} else if toks, why := parseToday(out, withNow); why != "" {
 			secs = append(secs, viewFail("D", why, out))
@@ -422,7 +449,7 @@ func views(now gotime.Time, aggArg string, fill, withDiff, withNow bool, filter 
 
 	// klog print --with-totals
 	code, out, errText = run("print", "--with-totals", "--no-style", "--no-warn")
-	if v, ok := classify("P", code, errText); !ok {
+	if v, ok := classify("P", code, errText, "print", "--with-totals", "--no-style", "--no-warn"); !ok {
 		secs = append(secs, v)
 	} else if toks, why := parseWithTotals(out); why != "" {
 		secs = append(secs, viewFail("P", why, out))
